@@ -18,11 +18,22 @@ Is(e) == l <= Len(T) /\ E.ev = e
 Adv == l' = l + 1 /\ UNCHANGED tid
 ReadTag == 257  WriteRegTag == 514  WriteFileTag == 1028  ErrStatTag == 1285  WriteCsfTag == 1542  WriteDcdTag == 2570  SkipDcdTag == 3084  JumpTag == 2827
 DataOutTags == {WriteFileTag, WriteCsfTag, WriteDcdTag}
+\* ---- command layer: the 16-byte command (address, access format, count, value; all big-endian on the wire) an operation stands for.
+\* A 32-bit word is a pair <<hi16, lo16>>; c.args are the API arguments in API order, c.dl the length of the data argument.
+Z == <<0, 0>>
+Pkt(addr, fmt, cnt, val) == [addr |-> addr, fmt |-> fmt, cnt |-> cnt, val |-> val, rsv |-> 0]
+SdpPkt(c) ==
+  CASE c.op = "read"        -> Pkt(c.args[1], c.args[3][2], c.args[2], Z)             \* read(address, length, format)
+    [] c.op = "write"       -> Pkt(c.args[1], c.args[4][2], c.args[3], c.args[2])     \* write(address, value, count, format)
+    [] c.op \in {"write_file", "write_dcd", "write_csf"} -> Pkt(c.args[1], 0, c.dl, Z)
+    [] c.op = "jump"        -> Pkt(c.args[1], 0, Z, Z)
+    [] c.op \in {"read_status", "skip_dcd"} -> Pkt(Z, 0, Z, Z)
 Init == /\ tid \in 1..Len(Traces) /\ l = 1 /\ call = [op |-> "none"] /\ dev = "idle" /\ devLeft = 0 /\ hostLeft = 0
         /\ faulted = FALSE /\ devStatusOk = TRUE /\ viol = FALSE /\ TLCSet(tid, 1)
 Call == Is("call") /\ call.op = "none" /\ dev = "idle" /\ call' = E /\ UNCHANGED <<dev, devLeft, hostLeft, faulted, devStatusOk, viol>> /\ Adv
 HostCmd == /\ Is("h2d") /\ E.kind = "cmd" /\ dev = "idle" /\ E.tag = call.tag
            /\ (call.tag = ReadTag \/ call.tag \in DataOutTags => E.count = call.len)          \* the command announces exactly the length of the call
+           /\ E.pkt = SdpPkt(call)                                                            \* AsRequested: address, format, count and value as given
            /\ dev' = (IF E.tag \in DataOutTags /\ E.count > 0 THEN "dataout" ELSE "hab")
            /\ hostLeft' = (IF E.tag \in DataOutTags THEN E.count ELSE 0) /\ devLeft' = (IF E.tag = ReadTag THEN E.count ELSE 0)
            /\ UNCHANGED <<call, faulted, devStatusOk, viol>> /\ Adv
